@@ -26,6 +26,7 @@ import Lattigo.Proofs.EncoderTRound
 import Lattigo.Proofs.EncoderTMul
 import Lattigo.Props.C01NTT
 import Lattigo.Props.C07CKKS
+import Lattigo.Props.C07Ring
 
 namespace Lattigo.EncoderT.C07
 open Lattigo Lattigo.EncoderT
